@@ -24,7 +24,7 @@ if [ "$demo" != "-" ]; then
   (cd "$wt" && /venv/bin/python -B mutants/x/demo.py >/dev/null 2>&1); echo "demo_patched_rc=$?"
 fi
 for p in $(echo "$pid" | tr ',' ' '); do
-  out=$(cd "$here" && VERIF_REPO="$wt" timeout 1500 ./check "$p" --tier "$tier" 2>&1); rc=$?
+  out=$(cd "$here" && VERIF_REPO="$wt" timeout 1500 ./check "$p" --tier "$tier" ${MUT_SEED:+--seed $MUT_SEED} 2>&1); rc=$?
   echo "check $p rc=$rc: $(echo "$out" | grep -c '^VIOLATION') VIOLATION lines; $(echo "$out" | tail -1 | cut -c1-200)"
   echo "$out" | grep -A1 '^VIOLATION' | grep '^  ' | sort | uniq -c | sort -rn | head -3 | cut -c1-220
 done
